@@ -124,7 +124,7 @@ def run(ctx):
             continue
         modes = ["ties", "all-equal", "reversed-runs", "sub-ms", "one-tick", "shuffled", "displaced"]
         for m in modes:
-            for rep in range(ctx.pick(4, 12)):
+            for rep in range(ctx.pick(8, 16)):
                 variants.append((base, "%s-%d" % (m, rep), patch(data, hdrs, m, rng)))
     jobs, meta = [], []
     for base, vname, data in variants:
@@ -139,7 +139,7 @@ def run(ctx):
         if not recs and "noevents" not in base:
             raise core.HarnessError("independent evtx dump read no records from %s: %r" % (p, r.err[:200]))
         inst = sorted({t for _, t in recs})
-        nwin = ctx.pick(10, 30)
+        nwin = ctx.pick(16, 40)
         wins = [(None, None, "none")]
         for _ in range(nwin):
             if not inst:
